@@ -4,6 +4,7 @@ Re-extracts, from the repository's working tree on every run, the data-like part
 Python glue whose exact content the glue model relies on:
 
   lightmotif-py/lightmotif/lib.rs, io.rs
+    * every `Py<Class>::new_err("message")` (also pyfile.rs): which exception class goes with which message;
     * every `#[pyo3(signature = (...))]` with the function it decorates: parameter names,
       the position of `*`, the default values (threshold = 0.0, block_size = 256, base = 2.0,
       method = "meme", format = "jaspar", protein = false, pseudocount/background/name = None);
@@ -164,12 +165,41 @@ def arm_target(body):
     raise ParseError("loader arm not understood: " + body[:80])
 
 
+def exc_sites(src):
+    """(message, exception class) of every `Py<Class>::new_err(...)` in source order; the message is the first
+    string literal inside the call (up to the first `{` of a format string), "" when the argument is not a literal"""
+    out = []
+    for m in re.finditer(r"\bPy(\w+?)(?:Error|Exception)?::new_err\(", src):
+        cls = re.match(r"Py(\w+)::new_err", src[m.start():]).group(1)
+        # the argument text up to the matching parenthesis
+        depth, j = 1, m.end()
+        while j < len(src) and depth:
+            if src[j] == "(":
+                depth += 1
+            elif src[j] == ")":
+                depth -= 1
+            j += 1
+        arg = src[m.end():j - 1]
+        lit = re.search(r'"((?:[^"\\]|\\.)*)"', arg)
+        msg = lit.group(1) if lit else ""
+        msg = msg.split("{")[0].strip().rstrip(":").strip()
+        out.append((msg, cls))
+    return out
+
+
 def translate():
     errors, notes = [], []
     try:
         lib = open(os.path.join(REPO, "lightmotif-py/lightmotif/lib.rs")).read()
         io = open(os.path.join(REPO, "lightmotif-py/lightmotif/io.rs")).read()
         abc = open(os.path.join(REPO, "lightmotif/src/abc.rs")).read()
+        pyfile = open(os.path.join(REPO, "lightmotif-py/lightmotif/pyfile.rs")).read()
+        sites = exc_sites(lib) + exc_sites(io) + exc_sites(pyfile)
+        if len(sites) < 20:
+            raise ParseError("only %d `Py...::new_err` sites found in lib.rs / io.rs / pyfile.rs" % len(sites))
+        for msg, cls in sites:
+            if not re.match(r"^\w+$", cls):
+                raise ParseError("exception class not understood: " + cls)
         sl, si = signatures(lib), signatures(io)
         scanner = find_sig(sl, "Scanner", "__init__")
         scan = find_sig(sl, None, "scan")
@@ -248,6 +278,9 @@ def translate():
             "(* EncodedSequence(sequence, protein=false): `protein` may be given by position (no `*`) *)",
             "Definition gen_encoded_params : list (list Z) := [%s]." % "; ".join(zs(n) for n, _ in encoded[2]),
             "Definition gen_encoded_keyword_only : bool := %s." % ("false" if encoded[3] is None else "true"),
+            "(* every `Py<Class>::new_err(\"message ...\")` of lib.rs, io.rs, pyfile.rs in source order: (message up to the",
+            "   first `{`, class) *)",
+            "Definition gen_exc_sites : list (list Z * list Z) := [%s]." % "; ".join("(%s, %s)" % (zs(m_), zs(c_)) for m_, c_ in sites),
             "",
         ]
         for g in (a for a, gd, _ in ld_arms if gd not in (None, "protein")):
